@@ -289,8 +289,16 @@ def run_case(idx, rng, P, rep):
                 ckw[p] = param.bind(_when_ready, src.param.ready)
                 rep.count('ctor_pending_references')
         fb = class_flags()
+        mb = meta_views()
         o = K(**ckw)
         check_flags(fb, f'{K.__name__}({", ".join(sorted(ckw))})')
+        ma = meta_views()
+        rep.count('construction_metadata_checks')
+        for k_ in mb:
+            if mb[k_] != ma[k_]:
+                # constructing an instance (its keyword values included) is an instance-level act
+                viol('metadata-leak/construction', f'{K.__name__}({", ".join(sorted(ckw))}) changed {k_}: {mb[k_]!r} -> {ma[k_]!r}')
+                break
         inst = dict(obj=o, ci=ci, own={}, touched=set())
         for p in names:
             sp = specs[p]
@@ -352,6 +360,29 @@ def run_case(idx, rng, P, rep):
         elif c < 0.12 and len(insts) < 5:
             kinds.append('new')
             new_instance()
+        elif c < 0.17 and insts:
+            # things done with an instance that are not assignments: announcing a parameter (trigger), a temporary
+            # override that is taken back (update used as a context manager). Afterwards the instance follows the class
+            # exactly as it did before.
+            ii = rng.randrange(len(insts))
+            inst = insts[ii]
+            cand = [n for n in names if not specs[n].get('constant') and specs[n]['kind'] not in ('sel', 'esel')]
+            if not cand:
+                continue
+            p = rng.choice(cand)
+            how = rng.choice(['trigger', 'temporary-update'])
+            kinds.append('inst_' + how)
+            trace.append((kinds[-1], ii, p))
+            rep.count('instance_non_assignments')
+            fb = class_flags()
+            if how == 'trigger':
+                inst['obj'].param.trigger(p)
+            else:
+                with inst['obj'].param.update(**{p: fresh_value(specs[p]['kind'])}):
+                    pass
+            check_flags(fb, f'inst{ii}: {how} {p}')
+            if specs[p].get('per_instance', True):
+                inst['touched'].add(p)
         elif c < 0.27:
             ii = rng.randrange(len(insts))
             inst = insts[ii]
